@@ -112,7 +112,8 @@ Released(lib, w) ==
 (* tiling sets used by the configurations (cfg files cannot hold records) *)
 T_2bins    == { [cuts |-> <<3>>, m |-> 2] }                            \* Ln = 6
 T_3bins    == { [cuts |-> <<2, 4>>, m |-> 1] }                         \* Ln = 6
-T_thorough == { [cuts |-> <<5>>, m |-> 2], [cuts |-> <<5>>, m |-> 3], [cuts |-> <<3, 7>>, m |-> 3], [cuts |-> <<3, 5>>, m |-> 2] }
+T_m3       == { [cuts |-> <<3>>, m |-> 3] }                            \* Ln = 7: fetch_end of bin 1 = 6 < Ln
+T_thorough == { [cuts |-> <<3>>, m |-> 3], [cuts |-> <<4>>, m |-> 2], [cuts |-> <<2, 5>>, m |-> 2] }   \* Ln = 7
 
 (* ---------------------------------------- P-level -------------------------------------------- *)
 FullKey(lib, i) == JobFrag(lib, i, Whole).key
@@ -238,7 +239,8 @@ Merge ==
     /\ pc' = "done"
     /\ UNCHANGED <<lib, nun, til, pend, cur, stream, buffer, stopped, out>>
 
-Next == \/ \E j \in Jobs : StartJob(j)
+Start == \E j \in Jobs : StartJob(j)
+Next == \/ Start
         \/ StarWrite \/ IterBuffer \/ LoopNoSite \/ LoopBreak \/ LoopSkip \/ LoopWrite \/ EndJob \/ Merge
 Spec == Init /\ [][Next]_vars
 
